@@ -304,15 +304,17 @@ def drv_numeric_plain(c, ctx, col):
     if len(set(keys)) < len(keys):
         raise Skip()
     icpt = c.flag()
+    cluster = c.flag()
+    cb = "numerical_factors" if cluster else "none"
     df = ctx["frame"]
     tl = ([Term([Factor("1", eval_method="literal")])] if icpt else []) + [
         Term([Factor(f, eval_method="literal" if _is_lit(f) else "lookup") for f in t]) for t in terms]
     desc = " + ".join((["1"] if icpt else []) + [":".join(("`%s`" % f) if not f.isidentifier() and not _is_lit(f) else f for f in t) for t in terms])
-    key = "numeric-plain terms=[%s] (ordering none)" % desc
+    key = "numeric-plain terms=[%s] (ordering none)%s" % (desc, " cluster_by=numerical_factors" if cluster else "")
     fo = Formula(tl, _ordering="none")
     try:
-        R = fo.get_model_matrix(df, output="numpy")
-        F = fo.get_model_matrix(df, output="numpy", ensure_full_rank=False)
+        R = fo.get_model_matrix(df, output="numpy", cluster_by=cb)
+        F = fo.get_model_matrix(df, output="numpy", ensure_full_rank=False, cluster_by=cb)
     except Exception as e:  # noqa
         col.violation(key, {"error": "%s: %s" % (type(e).__name__, e)}, sig="materialization-raised:" + type(e).__name__)
         return
@@ -342,6 +344,9 @@ def _is_lit(f):
 def plain_terms():
     base = [("A",), ("B",), ("a",), ("A", "B"), ("A", "a"), ("a", "A", "B"), ("A-",), ("A-", "B"), ("A-", "A")]
     out = list(base)
+    # a numeric column whose name sorts BEFORE the categorical it interacts with (n < z), factors written in both orders; and two numeric
+    # factors written in different orders in different terms (matters when terms are clustered by their numeric factors)
+    out += [("n", "z"), ("z", "n"), ("z", "n", "B"), ("B", "z", "n"), ("n", "z", "B"), ("a", "n", "A"), ("n", "a", "B"), ("n", "a"), ("a", "n")]
     for t in base[:6]:
         out.append(("2",) + t)
         out.append(t + ("2.5",))
@@ -392,6 +397,8 @@ def subchecks(tier, seed):
                             "contrasts": ["None", "contr.sum"]}))
     frn = fr.copy()
     frn["A-"] = [1.7 + 0.9 * i + 0.31 * ((i * 5) % 7) for i in range(len(frn))]  # a NUMERIC column named like a reduced factor
+    frn["z"] = frn["A"]  # a categorical column with a lower-case name
+    frn["n"] = [0.3 + 1.1 * i + 0.17 * ((i * 3) % 5) for i in range(len(frn))]  # ... and a numeric one that sorts before it
     subs.append(Sub("numeric-rank-scalings-and-odd-names", drv_numeric_plain, {"terms": plain_terms(), "N": 2 if quick else 3, "frame": frn}, shard_depth=2,
                     bounds={"terms": [":".join(t) for t in plain_terms()], "max_terms": 2 if quick else 3, "x": "intercept on/off",
                             "note": "literal scalings in any position; a numeric column literally named 'A-'"}))
